@@ -47,24 +47,30 @@ class Session:
         w = self.world
         # odd seeds create the additional keys WITHOUT KDF settings (the default path of add-key)
         fk = (lambda: None) if seed % 2 else (lambda: {'encryption': {'kdf': dict(harness.FAST_KDF)}})  # noqa: E731
-        w.init('a', b'pw-a', st, cache=cache_of('a'))
+        pwd = lambda t: b'pw-' + t      # noqa: E731
+        if seed % 4 == 2 and enc:
+            # every fourth seed: the BLAKE2b user KDF and passwords of exactly 64 bytes (its key-size limit)
+            fk = lambda: {'encryption': {'kdf': {'name': 'blake2b'}}}     # noqa: E731
+            pwd = lambda t: (b'pw-' + t + b'-').ljust(64, b'#')           # noqa: E731
+            st['encryption']['kdf'] = {'name': 'blake2b'}
+        w.init('a', pwd(b'a'), st, cache=cache_of('a'))
         if graph == 'plain':
             w.users['b'] = harness.User('b', None, None, cache_of('b'))
         elif graph == 'same':
             w.users['b'] = harness.User('b', w.users['a'].password, w.users['a'].key, cache_of('b'))
         elif graph == 'shared':
-            w.add_key('a', 'b', b'pw-b', shared=True, cache=cache_of('b'), settings_=fk())
+            w.add_key('a', 'b', pwd(b'b'), shared=True, cache=cache_of('b'), settings_=fk())
         elif graph == 'clone':
             w.add_key('a', 'b', None, clone=True, cache=cache_of('b'), settings_=fk())
         elif graph == 'indep':
-            w.add_key('a', 'b', b'pw-b', cache=cache_of('b'), settings_=fk())
+            w.add_key('a', 'b', pwd(b'b'), cache=cache_of('b'), settings_=fk())
         elif graph == 'mixed':
-            w.add_key('a', 'b', b'pw-b', shared=True, cache=cache_of('b'), settings_=fk())
-            w.add_key('a', 'c', b'pw-c', cache=cache_of('c'), settings_=fk())
+            w.add_key('a', 'b', pwd(b'b'), shared=True, cache=cache_of('b'), settings_=fk())
+            w.add_key('a', 'c', pwd(b'c'), cache=cache_of('c'), settings_=fk())
         elif graph == 'chain':
-            w.add_key('a', 'b', b'pw-b', shared=True, cache=cache_of('b'), settings_=fk())
-            w.add_key('b', 'c', b'pw-c', shared=True, cache=cache_of('c'), settings_=fk())
-            w.add_key('a', 'd', b'pw-d', cache=cache_of('d'), settings_=fk())
+            w.add_key('a', 'b', pwd(b'b'), shared=True, cache=cache_of('b'), settings_=fk())
+            w.add_key('b', 'c', pwd(b'c'), shared=True, cache=cache_of('c'), settings_=fk())
+            w.add_key('a', 'd', pwd(b'd'), cache=cache_of('d'), settings_=fk())
             w.add_key('d', 'e', None, clone=True, cache=cache_of('e'), settings_=fk())
         else:
             raise ValueError(graph)
@@ -320,6 +326,16 @@ class Session:
                 tmp = harness.User('x', up.password, uk.key, None)
                 o = self.world.command(tmp, lambda r: r.list_snapshots(header=False), cache=None)
                 self._marker('out', {'a': 'unlock', 'p': 1, 'key': k, 'pw': pw, 'ok': bool(o.ok), 'etype': o.etype}, 'out')
+        # impostors: wrong passwords that are close to the real one (longer, shorter, last byte changed)
+        for k in self.users:
+            uk = self.world.users[k]
+            if uk.key is None or uk.password is None:
+                continue
+            real = uk.password
+            for desc, wrong in (('real+1', real + b'!'), ('real+many', real + b' and a long tail' * 5), ('real-1', real[:-1]), ('last-byte', real[:-1] + bytes([real[-1] ^ 1]))):
+                tmp = harness.User('x', wrong, uk.key, None)
+                o = self.world.command(tmp, lambda r: r.list_snapshots(header=False), cache=None)
+                self._marker('out', {'a': 'unlock', 'p': 1, 'key': k, 'pw': k, 'imp': desc, 'ok': bool(o.ok), 'etype': o.etype}, 'out')
 
     # ------------------------------------------------------------ projection
     def _decode_snapshot(self, loc, blob, objs):
